@@ -550,7 +550,13 @@ async fn run<B: Sut>(case: &Case, b: &mut B) -> Outcome {
             Call::Put { ks, id, stamp, len } => {
                 referenced.insert(*ks);
                 let data = bytes(*id, *stamp, *len);
-                b.store().put(&ks_name(*ks), Document::new(*id, stamp.hlc(), data.clone())).await.map_err(|e| err("put", i, e))?;
+                // the contract has two entry points per write: the plain one and the one that takes the (optional)
+                // context of a repair exchange — the latter is what the keyspace actor calls (seeded change `C17m`)
+                if (i as u64).wrapping_add(*id) % 2 == 1 {
+                    b.store().put_with_ctx(&ks_name(*ks), Document::new(*id, stamp.hlc(), data.clone()), None).await.map_err(|e| err("put_with_ctx", i, e))?;
+                } else {
+                    b.store().put(&ks_name(*ks), Document::new(*id, stamp.hlc(), data.clone())).await.map_err(|e| err("put", i, e))?;
+                }
                 model.entry(*ks).or_default().insert(*id, (*stamp, Some(data)));
                 wrote = true;
                 big_id |= *id > i64::MAX as u64;
@@ -559,7 +565,11 @@ async fn run<B: Sut>(case: &Case, b: &mut B) -> Outcome {
             Call::MultiPut { ks, docs } => {
                 referenced.insert(*ks);
                 let d: Vec<Document> = docs.iter().map(|(id, st, len)| Document::new(*id, st.hlc(), bytes(*id, *st, *len))).collect();
-                b.store().multi_put(&ks_name(*ks), d.into_iter()).await.map_err(|e| err("multi_put", i, e))?;
+                if (i + d.len()) % 2 == 1 {
+                    b.store().multi_put_with_ctx(&ks_name(*ks), d.into_iter(), None).await.map_err(|e| err("multi_put_with_ctx", i, e))?;
+                } else {
+                    b.store().multi_put(&ks_name(*ks), d.into_iter()).await.map_err(|e| err("multi_put", i, e))?;
+                }
                 for (id, st, len) in docs {
                     model.entry(*ks).or_default().insert(*id, (*st, Some(bytes(*id, *st, *len))));
                     big_id |= *id > i64::MAX as u64;
